@@ -403,7 +403,7 @@ package plenccodec
 //@   loop 2 entry[C10,C01] loadi64(ptr + 8) == int(count) && int(count) <= loadi64(ptr + 16)
 //@   loop 2 step[C10,C01] called_Codec_Read && call_Codec_Read_arg2 == loadptr(ptr) + head_i * int(c.EltSize) && call_Codec_Read_arg0 == c.Underlying && i == head_i + 1
 //@   loop 1 step[C10] called_typedmemclr && call_typedmemclr_arg1 == loadptr(ptr) + head_i * int(c.EltSize) && i == head_i + 1
-//@   ensures[C10,C01] wt != 2 && err == nil ==> loopdone_2
+//@   ensures[C10,C01] wt != 2 && err == nil ==> loopdone_2 || (called_ReadVarUint && call_ReadVarUint_r0 == 0 && loadi64(ptr + 8) == 0)    # ... or nothing was to be read and the target is empty
 
 //@ func plenccodec.WTLengthSliceWrapper.readAsWTLength
 //@   safety C04 C11
@@ -459,7 +459,7 @@ package plenccodec
 //@   # an index without a codec is skipped, never decoded
 //@   loop 1 step[C03] called_Skip ==> !called_Codec_Read && (call_ReadTag_r1 >= len(c.fieldsByIndex) || c.fieldsByIndex[call_ReadTag_r1].codec == nil)
 //@   # success is reported only when every field of the data has been handled (the loop ran to the end of the data)
-//@   ensures[C03,C01] err == nil ==> loopdone_1
+//@   ensures[C03,C01] err == nil ==> loopdone_1 || len(data) == 0
 
 //@ func plenccodec.*MapCodec.Read
 //@   safety C04 C11
@@ -554,7 +554,7 @@ package plenccodec
 //@   # hands readJSONKV the address of one element at a time; that it leaves the target's header alone is not proved)
 //@   loop 2 entry[C16,C10] wfslice() ==> loadi64(ptr + 8) == int(scount()) && loadptr(ptr) == a.ptr
 //@   ensures[C16] wfslice() && err != nil ==> called_readJSONKV && call_readJSONKV_r1 != nil
-//@   ensures[C16] err == nil ==> loopdone_2
+//@   ensures[C16] err == nil ==> loopdone_2 || len(data) == 0
 
 //@ func plenccodec.readJSONKV
 //@   safety C04 C16
@@ -562,7 +562,7 @@ package plenccodec
 //@   loop 1 decreases len(data) - offset
 //@   ensures[C04,C05] err == nil ==> 0 <= n && n <= len(data)
 //@   ensures[C16] err == nil ==> n == len(data)      # an entry is consumed to its end
-//@   ensures[C16] err == nil ==> loopdone_1
+//@   ensures[C16] err == nil ==> loopdone_1 || len(data) == 0
 
 //@ func plenccodec.*Descriptor.Read
 //@   safety C04 C13
@@ -613,7 +613,7 @@ package plenccodec
 //@   loop 2 invariant[C13,C03] forall k int :: 0 <= k && k <= rangeindex ==> d.Elements[k].Index != index
 //@   loop 1 step[C13,C03] called_Skip ==> (forall k int :: 0 <= k && k < len(d.Elements) ==> d.Elements[k].Index != call_ReadTag_r1)
 //@   # success is reported only when every field of the data has been walked (the loop ran to the end of the data)
-//@   ensures[C13,C03] err == nil ==> loopdone_1
+//@   ensures[C13,C03] err == nil ==> loopdone_1 || len(data) == 0
 
 //@ func plenccodec.*Descriptor.readAsMapEntry
 //@   safety C04 C13
